@@ -2,6 +2,7 @@ import DirectVerif.Driver.Common
 import DirectVerif.Driver.C16
 import DirectVerif.Model.Ckpt
 import DirectVerif.Model.Train
+import DirectVerif.Model.C15Engine
 /-!
 Line-protocol driver for C15.
 
@@ -256,6 +257,167 @@ def opBundle (a b : Bundle.Objs) (mode : Int) (keys : List Int) : String :=
   | .error _ => "err KeyError"
   | .ok b' => okG [b'.map fun kv => (kv.2 : Int), (Bundle.leftover b file m).map Int.ofNat]
 
+/-! ### the code around the core (`Model/C15Engine.lean`) -/
+open DirectVerif.C15E in
+/-- aliases of "latest": 1000000 stands for the string "latest" -/
+def parseAliases (xs : List Int) : List (Option Int) := xs.map fun x => if x == 1000000 then none else some x
+
+open DirectVerif.C15E in
+def parseArg (kind n : Int) : LoadArg :=
+  match kind with
+  | 0 => .none
+  | 1 => .latest
+  | 2 => .int n
+  | 3 => .otherStr
+  | _ => .notIntNorStr
+
+open DirectVerif.C15E in
+/-- `loadreq aliases | last_model.txt code points or -1 | (it sid size written)* | kind n` -/
+def opLoadReq (aliases last : List Int) (files : List (Int × Nat × Nat × Nat)) (kind n : Int) : String :=
+  let d0 : Dir := if last = [-1] then Dir.empty else Dir.empty.set .last (some (last.map Int.toNat))
+  let d := files.foldl (fun d (it, sid, size, w) => d.set (.model it) (some ((toyEncode sid size).take w))) d0
+  fmtLoad (loadT (parseAliases aliases) toyDecode d (parseArg kind n))
+
+open DirectVerif.C15E in
+def parseModule : List Int → Option Api.Module
+  | [] => none
+  | dp :: r => (pairs r).map fun ps => { dp := dp == 1, params := ps }
+
+open DirectVerif.C15E in
+/-- `ckapi saveToDisk unwrapMain unwrapRegex label reqKind reqN | aliases | saver main | saver aux | saver others | kwargs
+| loader main | loader aux | loader others` -/
+def opCkApi (hdr aliases sm sa so kw lm la lo : List Int) : String :=
+  match hdr, parseModule sm, parseModule lm, pairs so, pairs kw, pairs lo with
+  | [std, um, ur, label, rk, rn], some smain, some lmain, some sothers, some kwargs, some lothers =>
+    let cs : Api.Ctor := { saveToDisk := std == 1, unwrapMain := um == 1, unwrapRegex := ur == 1 }
+    let cl : Api.Ctor := { unwrapMain := um == 1, unwrapRegex := ur == 1 }
+    let saver : Api.Objs := ⟨smain, parseModule sa, sothers⟩
+    let loader : Api.Objs := ⟨lmain, parseModule la, lothers⟩
+    let req : Api.Req := if rk == 9 then .modelsFromFile else .load (parseArg rk rn)
+    match Api.roundTrip (parseAliases aliases) cs saver kwargs label.toNat cl loader req with
+    | .raised .valueError => "err ValueError"
+    | .raised .fileNotFound => "err FileNotFoundError"
+    | .raised .corrupt => "err Corrupt"
+    | .missingKeys => "err NotImplementedError"
+    | .nothing => "ok 0"
+    | .loaded it o left =>
+      okG [[1, it.getD (-1)], o.main.params.map (fun nv => (nv.2 : Int)),
+           (o.aux.map fun m => m.params.map (fun nv => (nv.2 : Int))).getD [],
+           o.others.map (fun kv => (kv.2 : Int)), left.map Int.ofNat]
+  | _, _, _, _, _, _ => "err BadOp"
+
+open DirectVerif.C15E in
+/-- init chain as `cond chained nActs act…` per branch (cond 0 = resumed-and-init, 1 = init; act 0 loadModels, 1 swvTrue,
+2 loadFull) -/
+def parseInitTableF : Nat → List Int → Option (List InitBranch)
+  | _, [] => some []
+  | 0, _ => none
+  | fuel + 1, c :: ch :: n :: r =>
+    let acts := (r.take n.toNat).map fun (a : Int) => match a with
+      | 0 => InitAct.loadModels
+      | 1 => InitAct.swvTrue
+      | _ => InitAct.loadFull
+    (parseInitTableF fuel (r.drop n.toNat)).map fun tl =>
+      { cond := if c == 0 then .resumedAndInit else .init, chained := ch == 1, acts := acts } :: tl
+  | _, _ => none
+
+open DirectVerif.C15E in
+def parseInitTable (xs : List Int) : Option (List InitBranch) := parseInitTableF (xs.length + 1) xs
+
+open DirectVerif.C15E in
+def evG : Event → List Int
+  | .validate it => [1, it]
+  | .save l => [2, l]
+  | .log it => [3, it]
+  | .iter _ => []
+
+abbrev ModeSnap := Snap (Bool × Toy.Vec) (Option Toy.Vec) Nat
+
+def encSnapM (c : ModeSnap) : Bytes :=
+  let body := (if c.theta.1 then 1 else 0) :: encVec c.theta.2 ++ (match c.ostate with
+    | none => [0]
+    | some v => 1 :: encVec v) ++ [c.epoch, c.scaler]
+  (body.length + 1) :: body
+
+def decSnapM (b : Bytes) : Option ModeSnap :=
+  match b with
+  | n :: fl :: body =>
+    if b.length ≠ n then none else
+    match decVec body with
+    | none => none
+    | some (theta, r) =>
+      match r with
+      | 0 :: [e, sc] => some ⟨(fl == 1, theta), none, e, sc⟩
+      | 1 :: r' =>
+        match decVec r' with
+        | some (v, [e, sc]) => some ⟨(fl == 1, theta), some v, e, sc⟩
+        | _ => none
+      | _ => none
+  | _ => none
+
+open DirectVerif.C15E in
+/-- `vtrain` toy groups (7) | (kind j p resume init swv)* processes | valSteps hasVal tailCode | init file θ (num den)* |
+init chain codes | save table codes
+ → per process `start done latest epoch scaler | flag θ… | events…` -/
+def opVTrain (c : ToyCfg) (ckSteps : Nat) (procs extra initTheta chain tbl : List Int) : String :=
+  match c.reject, extra, parseInitTable chain, tableOf false tbl with
+  | some e, _, _, _ => "err " ++ e
+  | none, [valSteps, hasVal, tailCode], some initTbl, some t =>
+    let tail : ValTail := match tailCode with
+      | 0 => .allModels
+      | 1 => .mainOnly
+      | _ => .nothing
+    let v := C15E.Toy.vcfgOf tail valSteps.toNat (hasVal == 1)
+    let r : Run (Bool × Toy.Vec) (Option Toy.Vec) Toy.Vec Toy.Batch Rat Nat :=
+      { saveTbl := t, ops := C15E.Toy.opsMode c.d c.mu, lrAt := c.lrAt, cfg := { k := c.k }, batch := c.batch,
+        init := ⟨(true, c.w0 ++ List.replicate c.d 0), none, List.replicate (2 * c.d) 0, 0, 0⟩,
+        total := c.total, ckSteps := ckSteps, encode := fun s => [encSnapM s], decode := decSnapM }
+    let file : ModeSnap := ⟨(true, ratsOf initTheta), some (List.replicate (2 * c.d) 1), 7, 3⟩
+    let rec go (ps : List Int) (d : Dir) (out : List (List Int)) (fuel : Nat) : String :=
+      match fuel, ps with
+      | _, [] => okG out
+      | 0, _ => "err BadOp"
+      | fuel + 1, kind :: j :: p :: res :: ini :: swv :: rest =>
+        let stop : Stop := match kind with
+          | 1 => .vanishAfter j.toNat
+          | 2 => .killDuring j.toNat
+          | 4 => .killDuring j.toNat      -- a RuntimeError inside `_do_iteration`: the same `checkpoint_and_write_to_logs(iter_idx)`
+          | 3 =>
+            let (n, m) := crashPoint (opsOf r.saveTbl 0 [[0, 0, 0, 0]]) p.toNat
+            .crashInSave j.toNat n m
+          | _ => .finish
+        match vprocessT initTbl r v ⟨res == 1, ini == 1, swv == 1⟩ file stop d with
+        | none => "err LoadFailed"
+        | some (plan, s, d', ev) =>
+          let done := ev.filter (fun e => match e with | .iter _ => true | _ => false) |>.length
+          let lat : Int := match loadLatest r.decode d' with
+            | .ok it _ => it
+            | _ => -1
+          go rest d' (out ++ [[(plan.startIter : Int), (done : Int), lat, (s.epoch : Int), (s.scaler : Int)],
+                              (if s.theta.1 then 1 else 0) :: vecG s.theta.2, ev.flatMap evG]) fuel
+      | _, _ => "err BadOp"
+    go procs Dir.empty [] (procs.length + 1)
+  | _, _, _, _ => "err BadOp"
+
+open DirectVerif.C15E in
+/-- `lrstate method warmupIters | base gamma wf (num den)* | milestones | e m lr'n lr'd optRestored schRestored`
+ → `last_epoch step_count | base_lr | lr after the resume and after each of m further steps` -/
+def opLrState (hdr rats ms ctl : List Int) : String :=
+  match hdr, rats, ctl with
+  | [m, wi], [bn, bd, gn, gd, wn, wd], [e, more, ln, ld, optR, schR] =>
+    match parseSched [m, wi, bn, bd, gn, gd, wn, wd] ms with
+    | none => "err BadOp"
+    | some c =>
+      if !(Sched.sorted ms) then "err ValueError" else
+      if (c.lr 0).isNone then "err ValueError" else
+      let f : Rat → Int → Rat := fun base ep => (({ c with base := base } : Sched.MultiStep).lr ep).getD 0
+      let saved := Lr.steps f (Lr.construct f c.base) e.toNat
+      let x := Lr.resume f (mkR ln ld) saved (optR == 1) (schR == 1)
+      let seq := (List.range (more.toNat + 1)).map fun n => (Lr.steps f x n).1.lr
+      let fin := Lr.steps f x more.toNat
+      okG [[fin.2.lastEpoch, (fin.2.stepCount : Int)], ratG fin.2.baseLr ++ ratG fin.1.initialLr, seq.flatMap ratG]
+  | _, _, _ => "err BadOp"
+
 def step (op : String) (gs : List (List Int)) : String :=
   match op, gs with
   | "saveops", [[it, pinned], sizes, tbl] =>
@@ -286,6 +448,19 @@ def step (op : String) (gs : List (List Int)) : String :=
     match parseToy hdr mu sched ms xs ys w0, tableOf false tbl with
     | some c, some t => opTrain c (hdr.getD 4 1).toNat (hdr.getD 5 0 == 1) t stops
     | _, _ => "err BadOp"
+  | "loadreq", [aliases, last, files, [kind, n]] =>
+    match quads files with
+    | some fs => opLoadReq aliases last fs kind n
+    | none => "err BadOp"
+  | "ckapi", [hdr, aliases, sm, sa, so, kw, lm, la, lo] => opCkApi hdr aliases sm sa so kw lm la lo
+  | "vtrain", [hdr, mu, sched, ms, xs, ys, w0, procs, extra, initTheta, chain, tbl] =>
+    match parseToy hdr mu sched ms xs ys w0 with
+    | some c => opVTrain c (hdr.getD 4 1).toNat procs extra initTheta chain tbl
+    | none => "err BadOp"
+  | "lrstate", [hdr, rats, ms, ctl] => opLrState hdr rats ms ctl
+  | "solver", [[a, b]] => okG [C15E.solverSteps a b]
+  | "events", [[ck, vs, total, start]] =>
+    okG [(C15E.schedule ck.toNat vs.toNat total.toNat start.toNat (total.toNat - start.toNat)).flatMap evG]
   | _, _ => "err BadOp"
 
 end DirectVerif.Driver.C15
